@@ -161,6 +161,8 @@ class Gen:
         lens = [self.length(sc, 1), self.length(sc, 2)]
         recs = []
         index = r.choice(self.indices)
+        stale = self.stale_header(sc, tid, index) if r.random() < 0.25 else None
+        desc['stale_header'] = 1 if stale else 0
         for m in (1, 2)[:nm]:
             n = lens[m - 1]
             start = sc['ins'][m - 1]
@@ -176,8 +178,26 @@ class Gen:
                 off += hi - lo
             s = ''.join(s)
             hdr = '@NS500414:628:H7YVNBGXC:%d:%d:%d:%d %d:N:0:%s' % (1 + tid % 4, 11101, 1000 + tid % 30000, 1000 + tid // 7, m, index)
+            if stale is not None:
+                hdr = stale
             recs.append((hdr, s, '+', self.quals(len(s))))
         return recs, nm, desc
+
+    def stale_header(self, sc, tid, index):
+        """header of a read that went through an EARLIER demultiplexing pass (`@Is:..;RN:..;tag:value`, accepted by
+        TaggedRecord.parse_scmo_header): it carries stale values for the tags the strategy is about to set - all different
+        from what the bases of this read imply (bases the generator never puts at those places / other lengths)"""
+        r = self.rng
+        fake = {'bc': 'NNNNNNNNNNNNNNNN'[:r.choice([6, 8, 10, 16])], 'RX': 'NNNNNNNNNNNN'[:r.choice([3, 6, 8, 12])],
+                'RQ': 'zzzzzzzzzzzz'[:r.choice([3, 6, 8])], 'rS': 'NNNNNNN', 'lh': 'NNN', 'lq': 'zzz', 'QT': 'zzzzzzzzz',
+                'ES': 'NNNN', 'eq': 'zzzz', 'IS': 'NNNNNNNNNNNNNNNN'}
+        parts = ['Is:NS500414', 'RN:628', 'Fc:H7YVNBGXC', 'La:%d' % (1 + tid % 4), 'Ti:11101', 'CX:%d' % (1000 + tid % 30000),
+                 'CY:%d' % (1000 + tid // 7), 'Fi:N', 'CN:0', 'aa:%s' % index, 'aA:%s' % index, 'aI:1', 'LY:OLDLIB']
+        parts += ['%s:%s' % (t, fake[t]) for t in sorted(sc.get('settags', [])) if t in fake]
+        parts += ['bi:9999', 'BC:NNNNNNNN', 'MX:OLDMX']
+        r.shuffle(parts)
+        parts.remove('Is:NS500414')
+        return '@' + ';'.join(['Is:NS500414'] + parts)
 
 
 def observe(strategy, recs, FastqRecord, NonMultiplexable):
@@ -216,9 +236,9 @@ def replay(out, path):
     index = sorted(ip.barcodes[INDEX_ALIAS].keys())[0]
     recs = []
     for m in (1, 2)[:ev['nm']]:
-        hdr = '@NS500414:628:H7YVNBGXC:1:11101:%d:1000 %d:N:0:%s' % (1000 + ev['tid'] % 30000, m, index)
+        hdr = ev.get('hdr') or '@NS500414:628:H7YVNBGXC:1:11101:%d:1000 %d:N:0:%s' % (1000 + ev['tid'] % 30000, m, index)
         recs.append((hdr, ''.join(map(chr, ev['r%d' % m])), '+', ''.join(map(chr, ev['q%d' % m]))))
-    e = {k: ev[k] for k in ('ev', 'tid', 's', 'branch', 'inj', 'nm', 'r1', 'q1', 'r2', 'q2', 'gen')}
+    e = {k: ev[k] for k in ('ev', 'tid', 's', 'branch', 'inj', 'nm', 'r1', 'q1', 'r2', 'q2', 'gen', 'hdr') if k in ev}
     if ev['s'] in strategies:
         e.update(observe(strategies[ev['s']], recs, FastqRecord, NonMultiplexable))
     else:
@@ -277,7 +297,7 @@ def main():
                     e = {'ev': 'demux', 'tid': tid, 's': st, 'branch': sc['branch'], 'inj': inj, 'nm': nm,
                          'r1': codes(recs[0][1]), 'q1': codes(recs[0][3]),
                          'r2': codes(recs[1][1]) if nm > 1 else [], 'q2': codes(recs[1][3]) if nm > 1 else [],
-                         'gen': desc}
+                         'gen': desc, 'hdr': recs[0][0] if desc.get('stale_header') else ''}
                     e.update(obs)
                     emit(e)
         tid += 1
